@@ -111,14 +111,18 @@ def enum_structs(tier):
     for kind in ("struct", "enum"):
         for classes in [("pA", "prim"), ("pA", "vI"), ("pA", "pB"), ("cN", "pA")]:
             need = needed_of(classes, DEEP_CLASSES)
-            for bstyle in ("none", "inline", "where"):
+            for bstyle in ("none", "inline", "where", "both", "where2"):
                 for dflt in (False, True):
-                    ps = mk_params(need, False, "deep", bstyle, dflt)
+                    ps = mk_params(need, False, "deep", "inline" if bstyle == "both" else ("where" if bstyle == "where2" else bstyle), dflt)
                     fields = [(f"f{i}", DEEP_CLASSES[c][0]) for i, c in enumerate(classes)]
+                    extra_where = None
+                    if bstyle in ("both", "where2"):
+                        extra_where = "A: core::fmt::Debug"
                     if kind == "struct":
                         d = D.S("X", fields, (), ps)
                     else:
                         d = D.E("X", [Variant("U", "unit", []), Variant("T", "tuple", [(str(i), t) for i, (_, t) in enumerate(fields)])], (), ps)
+                    d.extra_where = extra_where
                     out.append((f"b.{kind}.{'+'.join(classes)}.{bstyle}.{'dflt' if dflt else 'nodflt'}", d))
     # raw identifiers
     out.append(("s.named.raw", D.S("X", [("r#type", "u8"), ("r#match", "A")], (), [Param("A", "field")])))
